@@ -94,6 +94,13 @@ type Session struct {
 	// PermuteRanges: functions (ssa names) whose `range` over a map of 2-3 keys
 	// is explored in every order instead of the deterministic sorted one
 	PermuteRanges map[string]bool
+	// CrossCheck > 0: re-decide up to that many assertion queries per harness with
+	// z3 5.1 (z3-new) and cvc5, one-shot; any sat/unsat disagreement is inconclusive
+	CrossCheck     int
+	CrossChecked   int
+	CrossAgree     int
+	CrossUnknown   int
+	crossSeen      int
 	IntrinsicPkgs map[string]bool
 
 	mu            sync.Mutex
@@ -180,6 +187,40 @@ type Explorer struct {
 	qlog       *os.File
 }
 
+// crossCheck re-decides `pc ∧ extra` with the other solvers (sampled).
+func (ex *Explorer) crossCheck(extra, verdict, label string) {
+	s := ex.S
+	if s.CrossCheck == 0 || ex.z == nil || !ex.z.mirror || (verdict != "sat" && verdict != "unsat") {
+		return
+	}
+	s.mu.Lock()
+	s.crossSeen++
+	take := s.CrossChecked < s.CrossCheck && (s.crossSeen%7 == 1 || verdict == "sat")
+	if take {
+		s.CrossChecked++
+	}
+	s.mu.Unlock()
+	if !take {
+		return
+	}
+	script := ex.z.script() + "(assert " + extra + ")\n"
+	for _, other := range []string{"z3-new", "cvc5"} {
+		r := secondOpinion(other, script, 60)
+		s.mu.Lock()
+		switch {
+		case r == "unknown":
+			s.CrossUnknown++
+		case r == verdict:
+			s.CrossAgree++
+		default:
+			if len(s.Inconclusive) < 50 {
+				s.Inconclusive = append(s.Inconclusive, fmt.Sprintf("SOLVER-DISAGREEMENT on assertion %s: z3 4.8.12 says %s, %s says %s", label, verdict, other, r))
+			}
+		}
+		s.mu.Unlock()
+	}
+}
+
 func (ex *Explorer) solver() *solver {
 	if ex.z == nil || ex.z.dead {
 		var lg *os.File
@@ -192,6 +233,7 @@ func (ex *Explorer) solver() *solver {
 		} else {
 			ex.z = newSolver(ex.S.SolverKind, ex.S.TimeoutS, nil)
 		}
+		ex.z.mirror = ex.S.CrossCheck > 0 && !ex.z.oneshot
 	}
 	return ex.z
 }
@@ -556,6 +598,7 @@ func (ex *Explorer) reportFailing(label, kind, detail, neg string) {
 	}
 	if len(regs) == 0 {
 		r := ex.check(neg)
+		defer ex.crossCheck(neg, r, label)
 		if r == "sat" {
 			record("")
 		} else if r == "unknown" {
